@@ -5,7 +5,7 @@
    rep A B   = the traversal the code performs, driven by the table [visited] extracted from the sources on every run
                (gen/C15Table.v); rep_stmt may end in Err "TypeError" (a method that does not exist is called).        *)
 From PV Require Import Base Crit gen.TermsTable Terms gen.C15Table Replace ReplaceCorr.
-From PV Require Import lemmas.ReplaceEqs lemmas.ReplaceLemmas lemmas.ReplaceStmt.
+From PV Require Import lemmas.ReplaceEqs lemmas.ReplaceLemmas lemmas.ReplaceStmt lemmas.ReplaceFull.
 
 Notation rep := (Replace.rep tcfg).
 Notation covered := (Replace.covered tcfg).
@@ -14,31 +14,56 @@ Notation cov_wt := (Replace.cov_wt tcfg).
 Notation rep_stmt := (Replace.rep_stmt tcfg).
 Notation cov_stmt := (Replace.cov_stmt tcfg).
 
-(* ---- the property as worded: for every term / wrapper term / statement, replace = built with B; other tables untouched *)
+(* ---- the property as worded, for everything the model has an object for:
+        terms of the shared expression AST (Field, Star, constants, Negative, ArithmeticExpression, Basic/ComplexCriterion,
+        ContainsCriterion, BetweenCriterion, BitwiseAndCriterion with a constant, Null/NotNullCriterion, Not, All, Case,
+        Function/Cast, Tuple, Array; the fixed sub-query leaf TSub over a table other than A),
+        wrapper terms (AggregateFunction+FILTER, AnalyticFunction+FILTER/PARTITION BY/ORDER BY, Extract, PeriodCriterion,
+        NestedCriterion, sub-query as term / IN container / comparison operand / EXISTS, ValueWrapper(term), AtTimezone),
+        statements of QueryBuilder, ClickHouse-, PostgreSQL-, MySQLQueryBuilder (FROM tables / sub-queries / named queries,
+        INSERT and UPDATE target, WITH, select list, columns, VALUES rows, WHERE, PREWHERE, GROUP BY, HAVING, ORDER BY,
+        cross / ON / USING joins over tables or sub-queries, SET pairs, star-table set, LIMIT BY, DISTINCT ON, RETURNING,
+        DELETE..USING tables, ON DUPLICATE KEY UPDATE pairs);
+        replace = the object built with B; other tables untouched.  [wf_stmt]: dialect-only slots are empty elsewhere. *)
 Definition C15_full_statement : Prop :=
   forall A B : tref,
     (forall t, sub_foreign A t = true -> rep A B t = subst A B t)
-    /\ (forall w, rep_wt A B w = subst_wt A B w)
-    /\ (forall s, rep_stmt A B s = Ok (subst_stmt A B s))
+    /\ (forall w, sf_wt A w = true -> rep_wt A B w = subst_wt A B w)
+    /\ (forall s, wf_stmt s = true -> sf_stmt A s = true -> rep_stmt A B s = Ok (subst_stmt A B s))
     /\ (forall C t, tref_eqb C A = false -> tref_eqb C B = false -> count C (rep A B t) = count C t).
 
-(* The faithful model still refutes it: QueryBuilder.set() wraps every value in a ValueWrapper, whose replace_table is
-   Term's no-op, so the value of a SET pair keeps table a although _updates is visited. *)
-Definition set_value : stmt :=
-  with_ (stmt0 false) [SrcTable wc] None (Some wa) [] [] [] [] None None [] None [] [] [(fa "c0", WT (fa "y"))] [] [].
-Definition sub_from : stmt :=
-  with_ (stmt0 false) [SrcSub qa (Some "sq")] None None [] [WT (fc "y")] [] [] None None [] None [] [] [] [] [].
-Definition sub_join : stmt := join_stmt (JOn "" (SrcSub qa (Some "j0")) (WT (cc "k"))).
-Definition sub_cross : stmt := join_stmt (JCross (SrcSub qa (Some "cj"))).
-Theorem C15_refuted : ~ C15_full_statement.
-Proof.
-  intro H. destruct (H wa wb) as [_ [_ [Hs _]]].
-  specialize (Hs set_value). vm_compute in Hs. discriminate Hs.
-Qed.
-Print Assumptions C15_refuted.
+(* It HOLDS as soon as the extracted configuration is complete: every slot of every modelled class entered, WITH bodies
+   rebuilt, FROM entries / join items compared and, when sub-queries, entered.  (Generic theorem, any configuration.) *)
+Theorem C15_holds_when_all_visited : full_cfg tcfg = true -> C15_full_statement.
+Proof. intros F A B. exact (full_cfg_holds tcfg F A B). Qed.
+Print Assumptions C15_holds_when_all_visited.
 
-(* ... but since the fix commits it HOLDS for every term of the shared expression AST (any depth, all tables): every
-   slot of every expression class is visited today (read off the extracted table; dropping one breaks this proof). *)
+(* It is REFUTED as soon as one candidate object (the witness of a (class, slot) pair, a sub-query in FROM / JOIN, a WITH
+   clause) renders differently after the code's traversal than after the specification. *)
+Theorem C15_refuted_by : forall o, refuting o = true -> ~ C15_full_statement.
+Proof.
+  intros o R H. unfold refuting in R. apply andb_true_iff in R. destruct R as [K D].
+  destruct (H wa wb) as [_ [Hw [Hs _]]]. apply negb_true_iff in D.
+  destruct o as [w|s]; unfold rep_show, subst_show in D; simpl in K.
+  - rewrite (Hw w K) in D. rewrite String.eqb_refl in D. discriminate.
+  - apply andb_true_iff in K. destruct K as [K1 K2]. rewrite (Hs s K1 K2) in D. rewrite String.eqb_refl in D. discriminate.
+Qed.
+Print Assumptions C15_refuted_by.
+
+(* The verdict for the configuration extracted from the sources of THIS run: holds, or refuted by a computed witness.
+   (On the tree at 1465503: refuted, the only unvisited modelled slot is PostgreSQLQueryBuilder._using.) *)
+Theorem C15_verdict : if full_cfg tcfg then C15_full_statement else ~ C15_full_statement.
+Proof.
+  destruct (full_cfg tcfg) eqn:F.
+  - exact (C15_holds_when_all_visited F).
+  - first [ (vm_compute in F; discriminate F)
+          | (assert (E : existsb refuting candidates = true) by (vm_compute; reflexivity);
+             apply existsb_exists in E; destruct E as [o [_ R]]; exact (C15_refuted_by o R)) ].
+Qed.
+Print Assumptions C15_verdict.
+
+(* Independently of the statement-level verdict: the property holds for every term of the shared expression AST,
+   because every slot of every expression class is visited (dropping one breaks this proof). *)
 Theorem C15_holds_on_terms : forall A B t, sub_foreign A t = true ->
   rep A B t = subst A B t /\ (forall c, render c (rep A B t) = render c (subst A B t)).
 Proof.
@@ -92,9 +117,9 @@ Qed.
 Print Assumptions C15_with_by_call_raises.
 Example C15_no_raise_today :
   c_with_by_call tcfg = false /\ c_src_mode tcfg KJoin = MCmpEnter
-  /\ (exists s', rep_stmt wa wb (with_ (stmt0 false) [SrcTable wa] None None [("w", qa)] [WT (fa "x")] [] [] None None [] None []
+  /\ (exists s', rep_stmt wa wb (with_ (stmt0 QGeneric) [SrcTable wa] None None [("w", qa)] [WT (fa "x")] [] [] None None [] None []
                                         [JCross (SrcTable wa)] [] [] []) = Ok s'
-                  /\ show_stmt s' = "Q FROM[""b""] INS[] UPD[] WITH[w=SELECT ""k"" FROM ""b""] SEL[""b"".""x""] COL[] VAL[] WHERE[] PRE[] GRP[] HAV[] ORD[] JOIN[Join::""b""] SET[] LBY[] STAR[]").
+                  /\ show_stmt s' = "Q FROM[""b""] INS[] UPD[] WITH[w=SELECT ""k"" FROM ""b""] SEL[""b"".""x""] COL[] VAL[] WHERE[] PRE[] GRP[] HAV[] ORD[] JOIN[Join::""b""] SET[] LBY[] DON[] RET[] USING[] DUP[] STAR[]").
 Proof. split; [reflexivity|]. split; [reflexivity|]. eexists. split; vm_compute; reflexivity. Qed.
 
 (* ---- the fragment on which the property holds, at any depth, for ANY configuration of visited slots ---- *)
@@ -161,23 +186,22 @@ Proof. vm_compute. repeat split. Qed.
 
 (* a statement inside the fragment: FROM, JOIN item and ON, select list, WHERE, GROUP BY, HAVING, ORDER BY, star set *)
 Definition ex_stmt : stmt :=
-  with_ (stmt0 false) [SrcTable wa] None None [] [WT (TStar (Some wa)); WT (TFunc "SUM" (TCons (fa "x") TNil) None (Some "s"))] [] []
+  with_ (stmt0 QGeneric) [SrcTable wa] None None [] [WT (TStar (Some wa)); WT (TFunc "SUM" (TCons (fa "x") TNil) None (Some "s"))] [] []
         (Some (WT (ca "y"))) None [WT (fa "g")] (Some (WT (TBasic CGt (TFunc "SUM" (TCons (fa "x") TNil) None None) one None)))
         [(WT (fa "o"), Some "DESC")] [JOn "LEFT" (SrcTable wc) (WT (TBasic CEq (fc "k") (fa "k") None))] [] [wa] [].
 Example C15_example_stmt :
   cov_stmt wa ex_stmt = true
   /\ fst (stmt_after wa wb ex_stmt)
-     = "Q FROM[""b""] INS[] UPD[] WITH[] SEL[""b"".*;SUM(""b"".""x"") ""s""] COL[] VAL[] WHERE[""b"".""y""=1] PRE[] GRP[""b"".""g""] HAV[SUM(""b"".""x"")>1] ORD[""b"".""o"" DESC] JOIN[JoinOn:LEFT:""c"":ON ""c"".""k""=""b"".""k""] SET[] LBY[]"
+     = "Q FROM[""b""] INS[] UPD[] WITH[] SEL[""b"".*;SUM(""b"".""x"") ""s""] COL[] VAL[] WHERE[""b"".""y""=1] PRE[] GRP[""b"".""g""] HAV[SUM(""b"".""x"")>1] ORD[""b"".""o"" DESC] JOIN[JoinOn:LEFT:""c"":ON ""c"".""k""=""b"".""k""] SET[] LBY[] DON[] RET[] USING[] DUP[]"
   /\ snd (stmt_after wa wb ex_stmt) = ["""b"""].
 Proof. vm_compute. repeat split. Qed.
 
-(* outside the fragment: the value of a SET pair is wrapped in a ValueWrapper, whose replace_table is the no-op *)
-Example C15_example_outside :
-  let s := with_ (stmt0 false) [SrcTable wc] None (Some wa) [] [] [] [] None None [] None [] [] [(fa "c0", WT (fa "y"))] [] [] in
-  cov_stmt wa s = false
-  /\ (exists s', rep_stmt wa wb s = Ok s' /\ s_updates s' = [(TField "c0" (Some wb) None, WT (fa "y"))])
-  /\ s_updates (subst_stmt wa wb s) = [(TField "c0" (Some wb) None, WT (TField "y" (Some wb) None))].
-Proof. vm_compute. split; [reflexivity|]. split; [eexists; split; reflexivity | reflexivity]. Qed.
+(* the value of a SET pair (a ValueWrapper around a term) is replaced since 1c7b7d2 *)
+Example C15_example_set_value :
+  let s := with_ (stmt0 QGeneric) [SrcTable wc] None (Some wa) [] [] [] [] None None [] None [] [] [(fa "c0", WT (fa "y"))] [] [] in
+  cov_stmt wa s = true
+  /\ (exists s', rep_stmt wa wb s = Ok s' /\ s_updates s' = [(TField "c0" (Some wb) None, WT (TField "y" (Some wb) None))]).
+Proof. vm_compute. split; [reflexivity|]. eexists; split; reflexivity. Qed.
 
 (* the IN list, which kept a before b9f327b, is inside the fragment now *)
 Example C15_example_in_list :
